@@ -37,6 +37,6 @@ Theorem split_clients_refuted :
   exists name h, valid_chain_name name = true /\ valid_height h = true /\
     iter_clients_old (full_consensus_state_key name h) = Ok (Got name).
 Proof.
-  exists (B "chain-a"), {| rev_number := 795044969; rev_height := 7308620174272427109 |}.
+  exists (B "chain-a"), {| rev_number := 795044969; rev_height := 7308907147052545125 |}.
   repeat split; vm_compute; reflexivity.
 Qed.
